@@ -5,6 +5,7 @@ from core import Case, call_impl, psec
 from props.tr31util import Session, VERS, rb, rand_blocks, make_header, wrap_case, unwrap_case, tr31
 
 OBLIGATIONS = ["Psec.Props.C13.effective_mask", "Psec.Props.C13.maskedLen_const", "Psec.Props.C13.wrap_length", "Psec.Props.C13.length_masked", "Psec.Props.C13.encrypted_bounds", "Psec.Props.C13.long_keys_whole"]
+TABLE_OBLIGATIONS = ["Psec.Tables.algo_max_key_len_agree", "Psec.Tables.keyblock_block_size_agree", "Psec.Tables.keyblock_mac_len_agree"]   # model = tables regenerated from the source (harness/tables.py)
 TRUSTED_BASE = ["Lean 4.33 kernel", "correspondence harness and compiled driver"]
 RULE = ("exhaustive on the implementation: versions A-D x algorithms {T,D,A,0,R,H} x mask {omitted, -8..64} x key lengths 0..64 (quick: a fixed sub-lattice), one to three "
         "optional-block layouts; every (version, algorithm, mask, layout) group must give one key-block length for all keys within the effective mask; a subset of the "
